@@ -107,15 +107,17 @@ Theorem C12_method_raises : forall (V : Type) (validate : json -> option V) st b
 Proof. exact method_raises. Qed.
 Print Assumptions C12_method_raises.
 
-(* ---- composed with C01 (classes generated by Model/Results.v, sub-language op_ok): a 2xx response
+(* ---- composed with C01 (classes generated by Model/Results.v, sub-language op_ok; mx: the @mixin names used,
+   none of them a generated class - mx_ok): a 2xx response
    whose data member conforms to the operation (Exec.conf_op) and that reports no errors is RETURNED by the
    generated method, as the validated result model of exactly that data; nothing is returned when the
    server reported errors or the status is not 2xx, whatever the validation function ---- *)
-Theorem C12_method_returns_conformant_data : forall C S frs fuel kind name sels root own pub' cls g cov fc d n st kv,
+Theorem C12_method_returns_conformant_data : forall C S frs fuel kind name mixins sels root own pub' cls g cov mx fc d n st kv,
   Results.root_type_name S kind = Results.Ok root ->
-  Results.op_parse fuel C S frs kind name [] sels = Results.Ok (own, pub', false) ->
-  Results.all_classes fuel C S frs (Results.DOp kind name [] sels) = Results.Ok cls ->
-  ResultsObjP.op_ok g cov C S frs root sels = true -> ResultsRunP.no_basemodel own = true ->
+  Results.op_parse fuel C S frs kind name mixins sels = Results.Ok (own, pub', false) ->
+  Results.all_classes fuel C S frs (Results.DOp kind name mixins sels) = Results.Ok cls ->
+  ResultsObjP.op_ok g cov C S frs mx mixins root sels = true -> ResultsRunP.mx_ok cls mx = true ->
+  ResultsRunP.no_basemodel own = true ->
   n >= fuel + 2 ->
   (200 <= st <= 299)%Z -> jlookup "data" kv = Some d ->
   (jlookup "errors" kv = None \/ jlookup "errors" kv = Some (JArr [])) ->
